@@ -95,7 +95,7 @@ CLOSE_LOOP = ('__CPROVER_assigns(i, g_i)\n'
               '__CPROVER_loop_invariant(i == g_i && i <= *marker_size - 2 && *marker_size >= 2 && *marker_size <= g_n - OFF(g_p0) && ITER_UNCHANGED_LOOP(in) && PTRS_OK(in)'
               ' && ((g_k >= 1 && g_k <= i) ==> g_p0[g_k] == MARKC) && __CPROVER_same_object(g_p0, CUR(in)) && OFF(g_p0) == OFF(CUR(in)))')
 
-GH = 'g_turn, g_pos, g_done, g_iter, g_last, g_called[0], g_ok[0], g_len[0], g_ncalls[0], g_ae[0], g_re[0], g_lp[0], g_called[1], g_ok[1], g_len[1], g_ncalls[1], g_ae[1], g_re[1], g_lp[1], vf_exc, vf_exc_counter, g_exc_obj, g_exc_type'
+GH = 'g_turn, g_pos, g_done, g_iter, g_last, g_called[0], g_ok[0], g_len[0], g_ncalls[0], g_ae[0], g_re[0], g_lp[0], g_called[1], g_ok[1], g_len[1], g_ncalls[1], g_ae[1], g_re[1], g_lp[1], g_cur, vf_exc, vf_exc_counter, g_exc_obj, g_exc_type'
 
 
 def until_loop(extra=''):
